@@ -15,6 +15,9 @@ pub fn eval_expr(
     crate::executor::VerifEvaluator::new(expr).eval(chunk)
 }
 
+/// The optimiser's rewrite rules as the compiled rule objects describe themselves.
+pub use crate::planner::verif_rule_inventory as rule_inventory;
+
 /// Fault injection into the per-operator output loop of the executor (`Builder::spawn`).
 /// Disarmed by default; with nothing armed the calls only count chunks.
 pub mod fault {
